@@ -32,6 +32,8 @@ pub enum Stage {
     Iir(u8),
     /// bits -> HDLC deframer -> packets -> VecToStream -> bytes
     Packets,
+    /// f32 -> f32 overlap-add FFT filter (block with internal streams)
+    FftFloat(TapSpec),
 }
 
 #[derive(Clone, Debug, Serialize, Deserialize, PartialEq)]
@@ -74,6 +76,7 @@ pub fn stage_strategy() -> impl Strategy<Value = Stage> {
         (crate::catalog::tapspec_strategy(24), 1u8..4).prop_map(|(t, d)| Stage::Fir(t, d)),
         (0u8..=100).prop_map(Stage::Iir),
         Just(Stage::Packets),
+        crate::catalog::tapspec_strategy(24).prop_map(Stage::FftFloat),
     ]
 }
 pub fn simple_strategy() -> impl Strategy<Value = Simple> {
@@ -289,6 +292,11 @@ pub fn build_opts(r: &Recipe, size: Option<usize>, endless: bool) -> BuiltGraph 
             (Stage::Iir(a), Cur::F(s)) => {
                 let (b, o) = SinglePoleIirFilter::new(s, *a as f32 / 100.0).unwrap();
                 add2!(b, "SinglePoleIirFilter");
+                Cur::F(o)
+            }
+            (Stage::FftFloat(t), Cur::F(s)) => {
+                let (b, o) = FftFilterFloat::new(s, &t.taps());
+                add2!(b, "FftFilterFloat");
                 Cur::F(o)
             }
             (Stage::Packets, Cur::B(s)) => {
